@@ -30,6 +30,9 @@ def check(ctx):
     jsq(ctx, P)
     in_service(ctx, P, iters)
     class_change(ctx, P, iters)
+    # a class change while waiting that changes the priority moves the customer to its new priority queue, in both directions (shared instance, C08)
+    from . import c08
+    c08.moves(ctx, P, family_views(P, "Node"), iters)
     ctx.assume("user-supplied routing functions / router subclasses are outside the analysed program")
 
 
